@@ -50,10 +50,12 @@ class EnvironmentsToObjects(Filter[Environment, Iterable]):
 
     def _env_to_objects(self,env):
         from coba import __version__ #imported here to avoid circular dependency
-        yield {"version":2,"coba_version":__version__}
-        yield env.params
+        #start reading before asking for params: some environments only
+        #know all of their params (e.g., n_actions) once they have been read.
         I = iter(env.read())
         batch = list(islice(I,1000))
+        yield {"version":2,"coba_version":__version__}
+        yield env.params
         while batch:
             yield batch
             batch = list(islice(I,1000))
